@@ -632,4 +632,78 @@ theorem sim_slots (hag : VAgree cx env vvty) :
 end
 
 
+/-- the emitted assignment target denotes the variable and components of the IR's place -/
+theorem lval_genV (hag : VAgree cx env vvty) {lhs : VExpr} {lhs' : VAExpr} {x : Var} {sl : Option (List SwizzleSlot)}
+    (hp : VIr.placeOf lhs = some (x, sl)) (hg : genV cx lhs = .ok lhs') :
+    VAst.lvalOfV env lhs' = some (x, sl.map (·.map slotIdx)) ∧ lhs.litlike = false ∧ VIr.litOK lhs = true := by
+  cases lhs with
+  | vvar id =>
+    simp [VIr.placeOf] at hp; obtain ⟨rfl, rfl⟩ := hp
+    simp [genV] at hg; subst hg
+    have hr := hag.vres (.loc id); simp only [Ctx.name] at hr
+    simp [VAst.lvalOfV, hr, VExpr.litlike, VIr.litOK]
+  | vglobal id =>
+    simp [VIr.placeOf] at hp; obtain ⟨rfl, rfl⟩ := hp
+    simp [genV] at hg; subst hg
+    have hr := hag.vres (.glob id); simp only [Ctx.name] at hr
+    simp [VAst.lvalOfV, hr, VExpr.litlike, VIr.litOK]
+  | swz e l =>
+    cases e with
+    | vvar id =>
+      simp [VIr.placeOf] at hp; obtain ⟨rfl, rfl⟩ := hp
+      simp [genV] at hg; subst hg
+      have hr := hag.vres (.loc id); simp only [Ctx.name] at hr
+      simp [VAst.lvalOfV, hr, parse_swizzleName, VExpr.litlike, VIr.litOK]
+    | vglobal id =>
+      simp [VIr.placeOf] at hp; obtain ⟨rfl, rfl⟩ := hp
+      simp [genV] at hg; subst hg
+      have hr := hag.vres (.glob id); simp only [Ctx.name] at hr
+      simp [VAst.lvalOfV, hr, parse_swizzleName, VExpr.litlike, VIr.litOK]
+    | _ => simp [VIr.placeOf] at hp
+  | _ => simp [VIr.placeOf] at hp
+
+theorem vconvert_self (P : Prim) (t : VTy) (v : VVal) : VAst.vconvert P t t v = some v := by simp [VAst.vconvert]
+
+/-- statement-level assignment / compound assignment to a vector variable or a swizzle of one -/
+theorem sim_vassign (hag : VAgree cx env vvty) {o : IntrinsicOp} {b : BinOp} {lhs rhs : VExpr} {lhs' rhs' : VAExpr} {T : VTy}
+    (hf : opForm o = .binary b) (hgl : genV cx lhs = .ok lhs') (hgr : genV cx rhs = .ok rhs')
+    (hok : VIr.assignOK W.sig cx.vty vvty lhs rhs = some T) (hlr : VIr.litOK rhs = true)
+    (hsem : irOpSem o = .assign ∨ ∃ m, irOpSem o = .compound m) :
+    ∀ ρ σ, VAst.evalTop W env ρ (.bin b lhs' rhs') σ = VIr.evalTop W ρ (.op o (.cons lhs (.cons rhs .nil))) σ := by
+  intro ρ σ
+  have hbs := op_binary hf
+  -- unpack the typing
+  cases hp : VIr.placeOf lhs with
+  | none => simp [VIr.assignOK, hp] at hok
+  | some pl =>
+    obtain ⟨x, sl⟩ := pl
+    cases htl : VIr.typeOf W.sig cx.vty vvty lhs with
+    | none => simp [VIr.assignOK, hp, htl] at hok
+    | some tl =>
+      cases htr : VIr.typeOf W.sig cx.vty vvty rhs with
+      | none => simp [VIr.assignOK, hp, htl, htr] at hok
+      | some tr =>
+        simp [VIr.assignOK, hp, htl, htr] at hok
+        obtain ⟨rfl, rfl⟩ := hok
+        obtain ⟨hlv, hll, hlol⟩ := lval_genV hag hp hgl
+        have hL := (sim_v (ρ := ρ) hag lhs lhs' tl hgl htl hlol).plain hll
+        have hR := sim_v (ρ := ρ) hag rhs rhs' tl hgr htr hlr
+        have hRc := hR.conv htr σ
+        rcases hsem with ha | ⟨m, hc⟩
+        · simp only [VAst.evalTop, hbs, ha, hlv, hL.1, hR.1, hRc, VIr.evalTop, hp]
+        · have hcm : VAst.vcommon tl (vastTy rhs tl) = some tl := by
+            have := vcommon_vastTy htl htr (by simp [hll])
+            simpa [vastTy, hll] using this
+          simp only [VAst.evalTop, hbs, hc, hlv, hL.1, hR.1, hcm, hRc, VIr.evalTop, hp]
+          cases VIr.eval W ρ rhs σ with
+          | none => rfl
+          | some r =>
+            obtain ⟨v, σ1⟩ := r
+            simp only []
+            cases readPlace (ρ x) (Option.map (List.map slotIdx) sl) with
+            | none => rfl
+            | some cur =>
+              simp only [vconvert_self]
+
+
 end RsslVerif.Lemmas.GenSemVec
